@@ -48,7 +48,7 @@ def run(out, tier, seed):
                 continue
             # indexes beyond the list are kept: they must raise IndexError
             evs = [{"op": "new", "items": st, "how": ["ctor", "hand"][(hi + si) % 2]}] + h + READS(len(st) + 2, members)
-            jobs.append({"cfg": {"vocab": ["plain", "falsy"][(hi + si) % 2], "head": ["bnode", "iri"][(hi // 2) % 2]}, "events": evs})
+            jobs.append({"cfg": {"vocab": ["plain", "falsy"][(hi + si) % 2], "head": ["bnode", "iri"][(hi // 2) % 2], "sibling": (hi + si) % 5 == 0}, "events": evs})
     out.exhaustive = True
     # corruption scenarios
     for st in starts[1:]:
